@@ -54,6 +54,7 @@ import SteelVerif.C13.LemmasFuel
 import SteelVerif.C13.LemmasHygiene7
 import SteelVerif.C13.LemmasSpec4
 import SteelVerif.C13.LemmasScope4
+import SteelVerif.C13.LemmasSkel
 import SteelVerif.C12.Lex
 namespace SteelVerif.C13
 set_option linter.unusedSimpArgs false
@@ -533,6 +534,15 @@ theorem scoping_under_Gd (name : Name) (lits : List Name) (pattern body : Sexp) 
     (hc : compileCase name lits pattern body = .ok cs) (hsrc : srcForm body) (hd : cs.sflags.Gd) :
     ∀ n ∈ freeOcc (2 * body.size + 2) [] cs.body, 1 ≤ n.hashes → ∃ s, n = s.hash ∧ s ∈ cs.depths.map (·.1) :=
   scoping_of_case name lits pattern body cs hc hsrc hd
+
+/-- `stored_template_skeleton`: the stored template of a compiled case is the written template up to `##`-prefixes
+and expander flags (`Sexp.skel` removes both): the definition-time renaming changes no structure, no keyword, no
+constant and no spelling.  With `introduced_binders_fresh` (which atoms get `##`: the binders), `scoping_under_Gd`
+(where `##`-names may occur) and `template_free_ids_resolve_globally` (the flagged free identifiers) this describes
+the stored template completely. -/
+theorem stored_template_skeleton (name : Name) (lits : List Name) (pattern body : Sexp) (cs : MacroCase)
+    (hc : compileCase name lits pattern body = .ok cs) (hsrc : srcForm body) : cs.body.skel = body.skel :=
+  stored_skel name lits pattern body cs hc hsrc
 
 /-! ## Agreement of steel's matcher / instantiator with the R7RS ones (towards `hygiene_partial`)
 
